@@ -380,3 +380,31 @@ def c09(ctx):
     buffered_judge(ctx, vlib.read_ndjson(rnd), "B-buffered", C09_CLAUSES)
     combos = [(1, 4, 0), (2, 5, 2), (4, 6, 5)] if q else [(w, n, f) for w in (1, 2, 4) for n in (3, 8) for f in (0, n // 2, n - 1)]
     child_panic_runs(ctx, combos)
+
+
+# ---------------------------------------------------------------------------
+@prop("C07", "multigen", "Trace_MultiGen")
+def c07(ctx):
+    q = ctx.quick()
+    ms, ml = (3, 3) if q else (4, 3)
+    ctx.rule = ("MC: MultiGen.tla, all length vectors with <=%d sources and lengths 0..%d, 3 strategies, every "
+                "weighted choice; negative control: the re-selection of the pinned commit hangs. A: every such vector "
+                "run through the real generator (in-memory sources), complete iteration under a watchdog, twice per seed; "
+                "B: random vectors up to 6 sources x lengths 0..9. non-trivial = >=2 sources with different lengths" % (ms, ml))
+    ctx.assumptions = ["a next() call that does not return within 5 s is a hang (the work is microseconds)"]
+    for st in ("sequential", "interleaved", "weighted"):
+        cfg = ('CONSTANTS MaxSrc = %d MaxLen = %d Strategy = "%s" Buggy = FALSE\nSPECIFICATION Spec\n'
+               'INVARIANTS OrderInv StrategyInv DoneInv NoHang\nPROPERTIES Terminates\nCHECK_DEADLOCK FALSE\n'
+               % (ms if st != "weighted" else 3, ml, st))
+        vlib.mc(ctx, "MultiGen", cfg, name="MultiGen-" + st)
+    neg = ('CONSTANTS MaxSrc = 2 MaxLen = 2 Strategy = "interleaved" Buggy = TRUE\nSPECIFICATION Spec\n'
+           'INVARIANTS NoHang\nCHECK_DEADLOCK FALSE\n')
+    vlib.mc(ctx, "MultiGen", neg, name="MultiGen-neg", expect_violation="NoHang", coverage=False)
+    gcfg = "CONSTANTS MaxSrc = %d MaxLen = %d\nINIT Init\nNEXT Next\nCHECK_DEADLOCK FALSE\n" % (ms, ml)
+    cases, n = vlib.tlc_generate(ctx, "Gen_MultiGen", gcfg, "cases-a.ndjson")
+    keys = ["lens", "strategy", "seed", "out", "ended", "st"]
+    vlib.exec_and_judge(ctx, "multigen", cases, "Trace_MultiGen", "A", sample_keys=keys)
+    ctx.exhaustive = True
+    rnd = ctx.path("cases-b.ndjson")
+    vlib.harness(["gen", "multigen", ctx.seed, 1500 if q else 20000, rnd])
+    vlib.exec_and_judge(ctx, "multigen", rnd, "Trace_MultiGen", "B", sample_keys=keys)
